@@ -474,6 +474,9 @@ func work(ctx *runner.Ctx) {
 	}
 	progs2 := []string{"GER", "GRGE", "GErr", "C", "gGER", "GGERR", "GREG", "GRdGE", "GRKGE", "GDGE"}
 	progs3 := []string{"GER", "GRGE", "C", "gGE", "GRd", "GERKGE", "GDG"}
+	if ctx.Quick() {
+		progs3 = []string{"GER", "GRGE", "C", "gGE", "GDG"}
+	}
 	var cases []cs
 	// whole protocol sessions sharing the circuit with each other and with direct users
 	for _, ci := range sessionCircuits {
@@ -512,7 +515,7 @@ func work(ctx *runner.Ctx) {
 	}
 	// unbounded exploration (sleep sets): every interleaving up to Mazurkiewicz equivalence and every pool answer
 	var ucases, uheavy []cs
-	uprogs := []string{"GER", "GRGE", "GErr", "C", "gGER", "GDGE"}
+	uprogs := []string{"GER", "GRGE", "GErr", "C", "GDGE"}
 	ucircs := []int{0, 1}
 	if !ctx.Quick() {
 		uprogs = progs2
@@ -521,6 +524,14 @@ func work(ctx *runner.Ctx) {
 	for _, ci := range ucircs {
 		for _, a := range uprogs {
 			for _, b := range uprogs {
+				// pairs with four or more garblings have 10^6 executions and more: every worker takes a share of
+				// such a system (thorough only); the lighter ones are dealt whole, one per worker
+				if strings.Count(a+b, "G")+strings.Count(a+b, "g") >= 4 {
+					if !ctx.Quick() && ci == 0 {
+						uheavy = append(uheavy, cs{Circ: ci, Programs: []string{a, b}, U: true})
+					}
+					continue
+				}
 				ucases = append(ucases, cs{Circ: ci, Programs: []string{a, b}, U: true})
 			}
 		}
